@@ -75,6 +75,11 @@ def parseOp : List String → Option (Op × Nat)
     match ← parseKey k with
     | .p pk => pure (.take pk (← optJ rest) (← optMask rest) (← optDb rest), 1)
     | _ => none
+  | "ctake" :: k :: rest => do
+    -- concurrent readers of one key: the model is one fault-free Take; repeat count 0 marks the op
+    match ← parseKey k with
+    | .p pk => pure (.take pk (← optJ rest) [] (← optDb rest), 0)
+    | _ => none
   | "qindex" :: k :: rest => do
     match ← parseKey k with
     | .x a => pure (.qindex a (← optJ rest) (← optMask rest) (← optDb rest), 1)
@@ -205,6 +210,11 @@ def coverOf (s s' : St) (op : Op) (o : Out) : List String :=
   let st := if keyUniverse.any (fun k => match s'.cache k with | some e => e.origin = .stale | none => false) then ["state-has-stale-entry"] else []
   f ++ r ++ t ++ g ++ d ++ st
 
+/-- observation of a concurrent read, reduced to the shape of a sequential one for the monitor. -/
+def concObs (toks : List String) : List String :=
+  (toks.filter fun t => !(t.startsWith "inflight=" || t.startsWith "distinct=")).map
+    fun t => if t = "q=ok" then "q=1" else t
+
 def runSection (r : Report) (sec : Section) : Report := Id.run do
   let c := Cfg.ofOptions (kvNat sec.cfg "exp" 0) (kvNat sec.cfg "nf" 0)
   let report := kvStr sec.cfg "stale" "carve" = "report"
@@ -217,12 +227,25 @@ def runSection (r : Report) (sec : Section) : Report := Id.run do
     | some (op, n) =>
       r := { r with ops := r.ops + 1 }
       r := r.addCover (opKind op)
-      let res := iterStep c s op n (s, { res := .ok })
-      let model := joinSp (showOut res.1 res.2)
+      let conc := n = 0
+      let res := iterStep c s op (if conc then 1 else n) (s, { res := .ok })
+      let dbf := match op with | .take _ _ _ d => d | _ => false
+      let model := if conc then
+          -- single loader: one query in flight at most, every reader gets the same result; under a database
+          -- fault every reader that is not sharing a flight re-queries (1 ≤ q ≤ n, printed as `ok`)
+          joinSp ([showRes res.2.res, (if dbf && res.2.q = 1 then "q=ok" else s!"q={res.2.q}"), "cmds=-",
+                   s!"inflight={res.2.q}", "distinct=1", "|"] ++ showDump res.1)
+        else joinSp (showOut res.1 res.2)
       let impl := joinSp l.obs
+      if conc then
+        r := r.addCover "concurrent-readers"
+        if kvNat l.obs "inflight" 99 > 1 then
+          r := r.violation sec.idx l.idx s!"single-loader: more than one database query in flight op=[{joinSp l.op}] impl=[{impl}]"
+        if kvNat l.obs "distinct" 99 ≠ 1 then
+          r := r.violation sec.idx l.idx s!"single-loader: concurrent readers received different results op=[{joinSp l.op}] impl=[{impl}]"
       for t in coverOf s res.1 op res.2 do r := r.addCover t
       if model ≠ impl then r := r.mismatch sec.idx l.idx model impl
-      match parseObs l.obs with
+      match parseObs (if conc then concObs l.obs else l.obs) with
       | none => r := r.violation sec.idx l.idx s!"unreadable observation [{impl}] op=[{joinSp l.op}]"
       | some o =>
         let m := Spec.monStep c report mon op o
